@@ -92,7 +92,12 @@ type Scenario struct {
 	// Adapter per node: "" = Lightning and the Bitcoin wallet are stubbed at the swap-package
 	// interfaces (tier 1); "lnd" = the real lnd adapter (lnd.Client, PaymentWatcher,
 	// MessageListener, TxWatcher) over the simulated LND (tier 2; implies flavor lnd)
+	// "cln" = the real clightning adapter over the simulated lightningd (tier 3)
 	Adapter [2]string `json:"adapter,omitempty"`
+
+	// RealLiquidWallet per node: the real wallet.ElementsRpcWallet over a simulated elementsd
+	// (wallet.RpcClient is the seam) instead of the stand-in at wallet.Wallet; elementsd back-end only
+	RealLiquidWallet [2]bool `json:"real_liquid_wallet,omitempty"`
 
 	// RpcParkRate: per-mille of polling RPC reads that are scheduling points
 	RpcParkRate int `json:"rpc_park_rate,omitempty"`
